@@ -166,44 +166,22 @@ fn body(sid: u32, off: u64, len: usize) -> Vec<u8> {
 }
 
 // ------------------------------------------------------------------------------------------------
-// what the application sees
+// what the application sees: after every frame the application polls everything it holds ("drain")
+// and the record lists, per frame, what it was handed.  Event forms (JSON arrays):
+//   ["accept", req] ["accept_end", res]            (server)
+//   ["push", req] ["push_end", res]                (client, when a PUSH_PROMISE is part of the case)
+//   ["info", resp] ["resp", resp] ["resp_err", res]
+//   ["data", len] ["data_end", res] ["trailers", fields] ["trailers_end", res]
+// res = "None" | "E(kind,code,origin)".  `Pending` results are not recorded; an API that has given
+// its final answer is not polled again.
 
-fn poll_body(d: &mut Driver, rs: &mut RecvStream) -> Value {
-    let w = d.conn_task.waker();
-    let mut cx = Context::from_waker(&w);
-    let mut data = Vec::new();
-    let data_end;
-    loop {
-        match rs.poll_data(&mut cx) {
-            Poll::Pending => {
-                data_end = json!("Pending");
-                break;
-            }
-            Poll::Ready(None) => {
-                data_end = json!("None");
-                break;
-            }
-            Poll::Ready(Some(Ok(b))) => {
-                let _ = rs.flow_control().release_capacity(b.len());
-                data.push(b.len());
-                if data.len() > 1000 {
-                    data_end = json!("runaway");
-                    break;
-                }
-            }
-            Poll::Ready(Some(Err(e))) => {
-                data_end = json!(err_str(&e));
-                break;
-            }
-        }
-    }
-    let trailers = match rs.poll_trailers(&mut cx) {
-        Poll::Pending => json!("Pending"),
-        Poll::Ready(Ok(None)) => json!("None"),
-        Poll::Ready(Ok(Some(m))) => json!({"fields": jmap(&m)}),
-        Poll::Ready(Err(e)) => json!(err_str(&e)),
-    };
-    json!({"data": data, "data_end": data_end, "trailers": trailers, "is_end_stream": rs.is_end_stream()})
+struct App {
+    accept_done: bool,
+    resp_done: bool,
+    push_done: bool,
+    body: Option<RecvStream>,
+    body_done: bool,
+    keep: Vec<Box<dyn std::any::Any>>,
 }
 
 fn req_json(parts: &http::request::Parts) -> Value {
@@ -216,6 +194,145 @@ fn req_json(parts: &http::request::Parts) -> Value {
         "protocol": parts.extensions.get::<h2::ext::Protocol>().map(|p| jb(p.as_str().as_bytes())),
         "fields": jmap(&parts.headers),
     })
+}
+
+fn drain_body(app: &mut App, cx: &mut Context<'_>, ev: &mut Vec<Value>) {
+    if app.body_done {
+        return;
+    }
+    let rs = match app.body.as_mut() {
+        Some(r) => r,
+        None => return,
+    };
+    let mut n = 0;
+    loop {
+        match rs.poll_data(cx) {
+            Poll::Pending => return,
+            Poll::Ready(Some(Ok(b))) => {
+                let _ = rs.flow_control().release_capacity(b.len());
+                ev.push(json!(["data", b.len()]));
+                n += 1;
+                if n > 1000 {
+                    ev.push(json!(["data_end", "runaway"]));
+                    app.body_done = true;
+                    return;
+                }
+            }
+            Poll::Ready(None) => {
+                ev.push(json!(["data_end", "None"]));
+                break;
+            }
+            Poll::Ready(Some(Err(e))) => {
+                ev.push(json!(["data_end", err_str(&e)]));
+                app.body_done = true;
+                return;
+            }
+        }
+    }
+    // poll_data said None: the next event is the trailer section or the stream has ended
+    match rs.poll_trailers(cx) {
+        Poll::Pending => ev.push(json!(["trailers_end", "Pending"])),
+        Poll::Ready(Ok(None)) => ev.push(json!(["trailers_end", "None"])),
+        Poll::Ready(Ok(Some(m))) => ev.push(json!(["trailers", jmap(&m)])),
+        Poll::Ready(Err(e)) => ev.push(json!(["trailers_end", err_str(&e)])),
+    }
+    app.body_done = true;
+}
+
+fn drain(d: &mut Driver, app: &mut App, client: bool) -> Value {
+    let w = d.conn_task.waker();
+    let mut cx = Context::from_waker(&w);
+    let mut ev: Vec<Value> = Vec::new();
+    if !client {
+        if !app.accept_done {
+            let acc = match &mut d.ep {
+                Endpoint::Server { conn: Some(conn) } => conn.poll_accept(&mut cx),
+                _ => Poll::Pending,
+            };
+            match acc {
+                Poll::Pending => {}
+                Poll::Ready(None) => {
+                    ev.push(json!(["accept_end", "None"]));
+                    app.accept_done = true;
+                }
+                Poll::Ready(Some(Err(e))) => {
+                    ev.push(json!(["accept_end", err_str(&e)]));
+                    app.accept_done = true;
+                }
+                Poll::Ready(Some(Ok((req, respond)))) => {
+                    let (parts, rs) = req.into_parts();
+                    ev.push(json!(["accept", req_json(&parts)]));
+                    app.accept_done = true;
+                    app.body = Some(rs);
+                    app.keep.push(Box::new(respond));
+                }
+            }
+        }
+    } else {
+        if !app.push_done && d.handles[0].pushes.is_some() {
+            let mut n = 0;
+            loop {
+                let r = d.handles[0].pushes.as_mut().unwrap().poll_push_promise(&mut cx);
+                match r {
+                    Poll::Pending => break,
+                    Poll::Ready(None) => {
+                        ev.push(json!(["push_end", "None"]));
+                        app.push_done = true;
+                        break;
+                    }
+                    Poll::Ready(Some(Err(e))) => {
+                        ev.push(json!(["push_end", err_str(&e)]));
+                        app.push_done = true;
+                        break;
+                    }
+                    Poll::Ready(Some(Ok(pp))) => {
+                        let (req, fut) = pp.into_parts();
+                        let (parts, _) = req.into_parts();
+                        ev.push(json!(["push", req_json(&parts)]));
+                        app.keep.push(Box::new(fut));
+                        n += 1;
+                        if n > 50 {
+                            ev.push(json!(["push_end", "runaway"]));
+                            app.push_done = true;
+                            break;
+                        }
+                    }
+                }
+            }
+        }
+        if !app.resp_done {
+            let mut n = 0;
+            loop {
+                let r = d.handles[0].resp.as_mut().unwrap().poll_informational(&mut cx);
+                match r {
+                    Poll::Ready(Some(Ok(resp))) => {
+                        ev.push(json!(["info", {"status": resp.status().as_u16(), "fields": jmap(resp.headers())}]));
+                        n += 1;
+                        if n > 50 {
+                            break;
+                        }
+                    }
+                    _ => break,
+                }
+            }
+            let r = Pin::new(d.handles[0].resp.as_mut().unwrap()).poll(&mut cx);
+            match r {
+                Poll::Pending => {}
+                Poll::Ready(Err(e)) => {
+                    ev.push(json!(["resp_err", err_str(&e)]));
+                    app.resp_done = true;
+                }
+                Poll::Ready(Ok(resp)) => {
+                    let (parts, rs) = resp.into_parts();
+                    ev.push(json!(["resp", {"status": parts.status.as_u16(), "fields": jmap(&parts.headers)}]));
+                    app.resp_done = true;
+                    app.body = Some(rs);
+                }
+            }
+        }
+    }
+    drain_body(app, &mut cx, &mut ev);
+    Value::Array(ev)
 }
 
 fn wire_obs(d: &Driver, from: usize) -> Value {
@@ -262,6 +379,8 @@ fn run_recv(c: &Case) -> Value {
     let sid = 1u32;
     let mut promised = 2u32;
     let mut off = 0u64;
+    let mut app = App { accept_done: false, resp_done: false, push_done: false, body: None, body_done: false, keep: Vec::new() };
+    let mut per_frame = Vec::new();
     for fr in &c.frames {
         match fr {
             Fr::H { fields, eos } => feed(&mut d, &wire::headers(sid, &wire::hpack_literal(fields), *eos, 0)),
@@ -274,124 +393,22 @@ fn run_recv(c: &Case) -> Value {
                 promised += 2;
             }
         }
+        per_frame.push(drain(&mut d, &mut app, c.client));
+        settle(&mut d);
     }
     let conn_res = d.exec(&json!({"op":"conn_poll"}));
-    let w = d.conn_task.waker();
-    let mut cx = Context::from_waker(&w);
     let mut obs = serde_json::Map::new();
     obs.insert("conn".into(), conn_res);
-    let mut keep: Vec<Box<dyn std::any::Any>> = Vec::new();
-    if !c.client {
-        let acc = match &mut d.ep {
-            Endpoint::Server { conn: Some(conn) } => conn.poll_accept(&mut cx),
-            _ => Poll::Pending,
-        };
-        match acc {
-            Poll::Pending => {
-                obs.insert("accept".into(), json!("Pending"));
-            }
-            Poll::Ready(None) => {
-                obs.insert("accept".into(), json!("None"));
-            }
-            Poll::Ready(Some(Err(e))) => {
-                obs.insert("accept".into(), json!(err_str(&e)));
-            }
-            Poll::Ready(Some(Ok((req, respond)))) => {
-                let (parts, mut rs) = req.into_parts();
-                obs.insert("accept".into(), req_json(&parts));
-                obs.insert("body".into(), poll_body(&mut d, &mut rs));
-                keep.push(Box::new(respond));
-                keep.push(Box::new(rs));
-            }
-        }
-    } else {
-        // pushes first
-        let mut pushes = Vec::new();
-        let mut push_end = Value::Null;
-        if d.handles[0].pushes.is_some() {
-            loop {
-                let r = d.handles[0].pushes.as_mut().unwrap().poll_push_promise(&mut cx);
-                match r {
-                    Poll::Pending => {
-                        push_end = json!("Pending");
-                        break;
-                    }
-                    Poll::Ready(None) => {
-                        push_end = json!("None");
-                        break;
-                    }
-                    Poll::Ready(Some(Err(e))) => {
-                        push_end = json!(err_str(&e));
-                        break;
-                    }
-                    Poll::Ready(Some(Ok(pp))) => {
-                        let (req, fut) = pp.into_parts();
-                        let (parts, _) = req.into_parts();
-                        pushes.push(req_json(&parts));
-                        keep.push(Box::new(fut));
-                        if pushes.len() > 50 {
-                            push_end = json!("runaway");
-                            break;
-                        }
-                    }
-                }
-            }
-        }
-        obs.insert("pushes".into(), json!(pushes));
-        obs.insert("push_end".into(), push_end);
-        let mut infos = Vec::new();
-        let info_end;
-        loop {
-            let r = d.handles[0].resp.as_mut().unwrap().poll_informational(&mut cx);
-            match r {
-                Poll::Pending => {
-                    info_end = json!("Pending");
-                    break;
-                }
-                Poll::Ready(None) => {
-                    info_end = json!("None");
-                    break;
-                }
-                Poll::Ready(Some(Err(e))) => {
-                    info_end = json!(err_str(&e));
-                    break;
-                }
-                Poll::Ready(Some(Ok(resp))) => {
-                    infos.push(json!({"status": resp.status().as_u16(), "fields": jmap(resp.headers())}));
-                    if infos.len() > 50 {
-                        info_end = json!("runaway");
-                        break;
-                    }
-                }
-            }
-        }
-        obs.insert("infos".into(), json!(infos));
-        obs.insert("info_end".into(), info_end);
-        let r = Pin::new(d.handles[0].resp.as_mut().unwrap()).poll(&mut cx);
-        match r {
-            Poll::Pending => {
-                obs.insert("resp".into(), json!("Pending"));
-            }
-            Poll::Ready(Err(e)) => {
-                obs.insert("resp".into(), json!(err_str(&e)));
-            }
-            Poll::Ready(Ok(resp)) => {
-                let (parts, mut rs) = resp.into_parts();
-                obs.insert("resp".into(), json!({"status": parts.status.as_u16(), "fields": jmap(&parts.headers)}));
-                obs.insert("body".into(), poll_body(&mut d, &mut rs));
-                keep.push(Box::new(rs));
-            }
-        }
-    }
-    settle(&mut d);
+    obs.insert("events".into(), Value::Array(per_frame));
     obs.insert("wire".into(), wire_obs(&d, from));
     let dropped = std::panic::catch_unwind(std::panic::AssertUnwindSafe(move || {
-        drop(keep);
+        drop(app);
         drop(d);
     }));
     obs.insert("drop_panic".into(), json!(dropped.is_err()));
     Value::Object(obs)
 }
+
 
 // ------------------------------------------------------------------------------------------------
 // generators (recv)
@@ -1016,6 +1033,20 @@ fn corpus() -> Vec<Case> {
     v.push(case(false, false, false, vec![h({ let mut r = req(); r.insert(0, f(":foo", "v")); r }, true)], "unknown pseudo"));
     v.push(case(false, false, false, vec![h({ let mut r = req(); r.push(f(":status", "200")); r }, true)], ":status after regular? no, after pseudo"));
     v.push(case(false, false, false, vec![h({ let mut r = req(); r.push(f("host", "other.example")); r }, true)], "host differs from :authority"));
+    v.push(case(true, true, false, vec![h(vec![f(":status", "200"), f("content-length", "abc")], true)], "HEAD response with non-numeric content-length"));
+    v.push(case(true, true, false, vec![h(vec![f(":status", "200"), f("content-length", "3"), f("content-length", "5")], true)], "HEAD response with conflicting content-length"));
+    v.push(case(true, false, false, vec![Fr::PP { fields: { let mut r = req(); r.push(f("content-length", "0")); r.push(f("content-length", "5")); r } }, h(vec![f(":status", "200")], true)], "push with conflicting content-length 0 and 5"));
+    v.push(case(true, false, false, vec![Fr::PP { fields: { let mut r = req(); r.push(f("content-length", "")); r } }, h(vec![f(":status", "200")], true)], "push with empty content-length"));
+    v.push(case(true, false, false, vec![h(vec![f(":status", "103")], false), h(vec![f(":status", "100")], true)], "second 1xx with END_STREAM"));
+    v.push(case(false, false, false, vec![h(vec![f(":method", "CONNECT"), f(":authority", "")], false)], "CONNECT with empty :authority"));
+    v.push(case(false, false, true, vec![h(vec![f(":method", "CONNECT"), f(":protocol", "web\nsocket"), f(":scheme", "https"), f(":path", "/chat"), f(":authority", "example.com")], false)], "extended CONNECT, LF in :protocol"));
+    v.push(case(true, false, false, vec![h(vec![f(":status", "200")], true), h(vec![f("x-t", "1")], false)], "HEADERS without END_STREAM after clean end"));
+    v.push(case(true, false, false, vec![h(vec![f(":status", "200")], true), h(vec![f("x-t", "1")], true)], "HEADERS with END_STREAM after clean end"));
+    v.push(case(true, false, false, vec![h(vec![f(":status", "200")], true), Fr::D { len: 1, eos: true }], "DATA after clean end"));
+    v.push(case(false, false, false, vec![Fr::D { len: 1, eos: true }], "server: DATA on idle stream"));
+    v.push(case(true, false, false, vec![Fr::D { len: 1, eos: true }], "client: DATA before response"));
+    v.push(case(true, false, false, vec![h(vec![f("connection", "x")], false), h(vec![f(":status", "200")], true), Fr::D { len: 1, eos: true }], "frames after a codec-level stream error"));
+    v.push(case(true, false, false, vec![h(vec![f(":status", "200")], false), Fr::PP { fields: req() }, Fr::PP { fields: { let mut r = req(); r.push(f("te", "x")); r } }, Fr::PP { fields: req() }], "push after malformed push"));
     v
 }
 
